@@ -7,7 +7,7 @@ PATCH = b"@@\n@@\n-marker\n+marker+1\n"
 GO = lambda pkg: ("package %s\n\nvar v = marker\n" % pkg).encode()
 
 FILE_GO = ["a.go", "b.go", "m.go", "z_test.go", ".hidden.go", "_under.go", "x.go", "A.go", "a-b.go", "go.go", ".go"]
-FILE_OTHER = ["README.md", "a.txt", "go", "a.gox", "b.go.bak", "Makefile", "c.GO", "d.go~"]
+FILE_OTHER = ["README.md", "a.txt", "go", "a.gox", "b.go.bak", "Makefile", "c.GO", "d.go~", "a.go.123456789.tmp", "m.go.orig"]
 DIR_OK = ["pkg", "sub", "a-b", "a", "internal", "x.go", "v.endor", "testdata2", "Vendor", "cmd", "b", "go"]
 DIR_EXCL = ["vendor", "testdata", ".git", "_tmp", ".x", "_"]
 
@@ -173,7 +173,10 @@ def run_case(case):
         with open(os.path.join(root, "p.patch"), "wb") as f:
             f.write(PATCH)
         real_args = [a.replace("<CWD>", cwd) for a in args]
+        import clicorr
+        snap_before = clicorr.snapshot(cwd)
         rc, out, err = vlib.run_gopatch(["-p", os.path.join(root, "p.patch"), "-v"] + real_args, cwd)
+        snap_after = clicorr.snapshot(cwd)
         processed = []
         for l in out.decode("utf-8", "replace").split("\n"):
             m = re.match(r"^(.*): (patched|skipped)$", l)
@@ -193,7 +196,9 @@ def run_case(case):
         rc2, out2, err2 = vlib.run_gopatch(["-p", os.path.join(root, "p.patch"), "-d"] + real_args, cwd)
         provided = re.findall(r"^--- (.*)$", out2.decode("utf-8", "replace"), re.M)
         return {"root": root, "cwd": cwd, "rc": rc, "stderr": err.decode("utf-8", "replace"), "processed": processed,
-                "counts": counts, "provided": provided, "rc2": rc2, "real_args": real_args}
+                "counts": counts, "provided": provided, "rc2": rc2, "real_args": real_args,
+                "touched": sorted(rel for rel in set(snap_before) | set(snap_after)
+                                  if (snap_before.get(rel) or ("?",))[:2] != (snap_after.get(rel) or ("!",))[:2])}
     finally:
         shutil.rmtree(root, ignore_errors=True)
 
@@ -271,6 +276,9 @@ def main():
                         ck.violation("%s was rewritten %d times (expected %d)" % (p.replace(cwd, ""), cnt, want), rep)
             if ob["rc"] != 0:
                 ck.violation("exit status %d on a clean tree: %s" % (ob["rc"], ob["stderr"][:200]), rep)
+            stray = [rel for rel in ob["touched"] if os.path.join(cwd, rel) not in ref]
+            if stray:
+                ck.violation("paths that are not requested Go files were created, removed or modified: %s" % stray, rep)
         # ---- model
         if pr[0] != "result":
             ck.mismatch("model error %r" % (pr,), rep, "corr:discover")
